@@ -132,6 +132,33 @@ def rule_keys(ctx):
     reg = registry(ctx)
     for k, srcs in sorted(reg.items()):
         r.ok(f"{C.CORE}::{TREE}::C02-KEYS::{k}", srcs[0], "cache key", sources=len(srcs))
+    # every store into a per-node entry uses a key whose dependencies the closure
+    # analysis knows: a getter's key (dependency graph computed from its body) or
+    # 'centrality' (heuristic only).  An ad-hoc key is a cache nobody invalidates.
+    known = set(getters(ctx)) | {"centrality"}
+    for f in tree_funcs(ctx, False):
+        if f.cls is not None and f.cls.module.path != C.CORE:
+            continue
+        for kind, key, nodeexpr, n, val, keyexpr in C.info_key_accesses(f):
+            if kind != "store":
+                continue
+            keys = [key] if isinstance(key, str) else (C.loop_key_values(ctx, f, keyexpr, n) or None)
+            if keys is not None and set(keys) <= known:
+                continue
+            if keys is None and isinstance(keyexpr, ast.Name):
+                # the decorator's own store: info[node][name], name a parameter of the
+                # enclosing decorator factory (the getter key itself)
+                g, deco = f.parent_func, False
+                while g is not None:
+                    deco = deco or keyexpr.id in g.params
+                    g = g.parent_func
+                if deco:
+                    continue
+            r.violation(ctx.key(f, "C02-KEYS", "adhoc"), C.loc(f, n),
+                        f"`{C.unparse(n, 60)}` caches a value in a per-node entry under a key that no "
+                        "getter defines: per-node entries are dropped only when that node is rebuilt, "
+                        "and the invalidation lists know nothing about this key, so the value "
+                        "survives changes elsewhere in the tree", key=C.unparse(keyexpr, 60))
     if ctx.tier == "thorough":
         for k, fs in sorted(getters(ctx, "all").items()):
             if k not in reg:
